@@ -827,6 +827,10 @@ func (ps *PeerState) SetHasProposal(proposal *types.Proposal) {
 	if ps.Proposal {
 		return
 	}
+	if proposal.BlockPartsHeader.Total < 0 || proposal.BlockPartsHeader.Total > types.MaxBlockSize {
+		// the peer's claim is not verified here: do not size a bit array from an absurd part count
+		return
+	}
 
 	ps.Proposal = true
 	ps.ProposalBlockPartsHeader = proposal.BlockPartsHeader
